@@ -17,6 +17,7 @@ def closed_form(stamps, period, punit, unit, tol):
 
 class C13(Prop):
     id = 'C13'
+    rule_added = '25% of online cases after an earlier run + reset(); 25% of all cases on an object configured differently before.'
     rule = ('time-stamp sequences of 1..50 stamps with dyadic gaps (on-period, exactly on either tolerance bound, '
             'just inside/outside, zero, huge) x period in {1 s, 500 ms, 2 s, 250000 us, 4 ms} x default unit in '
             '{s, ms, us} x tolerance in {0, 1/8, 1/4, 1/2, 1, 0.1 (kept away from the bounds)} x '
@@ -30,6 +31,9 @@ class C13(Prop):
     floors = {'quick': (300, 80), 'thorough': (5000, 1500)}
     must_reach = ['discrete_time_interpreter:DiscreteTimeInterpreter.update_sampling_violation_counter']
     quick_cases = 3000
+    # the counter is cumulative over the evaluate() calls of one object (the statement counts the stamps "supplied"),
+    # so an offline prehistory would legitimately add to it; C13 has its own after-reset and reconfiguration classes
+    object_histories = False
     thorough_cases = 2000000
 
     def shrinkable(self, case):
